@@ -28,6 +28,7 @@ def run_rules(prop_id, prog, tier, quiet=True):
     ctx = report.Ctx(prop_id, prog, tier, quiet=quiet)
     try:
         mod.run(ctx)
+        _run_shared(prop_id, mod, prog, tier, ctx)
     except ShapeError as e:
         # the anchored function is there but the mechanism inside it is not: a violation, not an analysis problem
         r = ctx.rule("SHAPE", "the mechanism each rule is anchored on is present in its anchored function", 0, "A")
@@ -43,6 +44,35 @@ def run_rules(prop_id, prog, tier, quiet=True):
     return ctx, mod
 
 
+_SHARED_CACHE = {}
+
+
+def _run_shared(prop_id, mod, prog, tier, ctx):
+    """Rules of neighbouring properties that this property also depends on (SHARED = [("C09", ["R2"], why)]): the
+    neighbour's module is run on the same program and the selected rules' instances are adopted under this
+    property's id (rule `<this>.<other>.<rid>`), so that each property's own check reports a broken shared mechanism."""
+    for other, rids, why in getattr(mod, "SHARED", []):
+        key = (id(prog), other)
+        octx = _SHARED_CACHE.get(key)
+        if octx is None:
+            omod = load_rules(other)
+            octx = report.Ctx(other, prog, tier, quiet=True)
+            try:
+                omod.run(octx)
+            except ShapeError as e:
+                r0 = octx.rule("SHAPE", "mechanism present", 0, "A")
+                r0.fail("mechanism-missing: %s" % e, "expected mechanism not found: %s" % e)
+            _SHARED_CACHE.clear()
+            _SHARED_CACHE[key] = octx
+        for orule in octx.rules:
+            short = orule.rid.split(".", 1)[1]
+            if short in rids or (short == "SHAPE" and orule.instances):
+                nr = ctx.rule("%s.%s" % (other, short), "[shared with %s: %s] %s" % (other, why, orule.title), 0, orule.engine)
+                for inst in orule.instances:
+                    nr.instances.append(report.Instance(nr.rid, inst.construct, inst.where, inst.verdict, inst.facts, inst.what, inst.witness))
+        ctx.functions_consulted |= octx.functions_consulted
+
+
 def run_property(prop_id, tier, root=None, out=sys.stdout):
     t0 = time.time()
     known = report.load_known()
@@ -50,6 +80,11 @@ def run_property(prop_id, tier, root=None, out=sys.stdout):
         prog = Program(root)
         ctx, mod = run_rules(prop_id, prog, tier, quiet=False)
         under = [] if ctx.aborted else ctx.undercounted()
+        if under and report.split_known(prop_id, ctx.failures(), known)[1]:
+            # a rule already reports a failing instance that is not a known finding: the violation stands, the
+            # reduced instance count is a consequence of the changed construct
+            ctx.aborted = "instance count of %s below the confirmed minimum" % ", ".join(r.rid for r in under)
+            under = []
         if under:
             for r in under:
                 print("ANALYSIS-ERROR property=%s rule %s matched %d instance(s), expected at least %d (%s)" % (
